@@ -241,6 +241,8 @@ func (r *intraProxyStreamReceiver) Run(ctx context.Context, shardManager ShardMa
 	// Ensure we can cancel Recv() by canceling the context when tearing down
 	ctx, cancel := context.WithCancel(ctx)
 	r.cancel = cancel
+	// whatever makes Run return, the stream must not outlive it
+	defer cancel()
 
 	client := adminservice.NewAdminServiceClient(conn)
 	streamClient, err := client.StreamWorkflowReplicationMessages(ctx)
@@ -331,6 +333,9 @@ func (r *intraProxyStreamReceiver) recvReplicationMessages() error {
 						return nil
 					}
 				} else {
+					if shutdown.IsShutdown() {
+						return nil
+					}
 					if !logged {
 						r.logger.Warn("No local send channel yet for target shard; waiting",
 							tag.NewStringTag("targetShard", ClusterShardIDtoString(r.targetShardID)))
